@@ -146,13 +146,19 @@ class Ctx:
 
     def result(self):
         return {
-            'evaluations': self.evaluations, 'distinct': self.distinct,
-            'outcomes': self.outcomes, 'fails': self.fails, 'samples': self.samples,
+            'evaluations': self.evaluations, 'distinct': _pack(self.distinct),
+            'outcomes': _pack(self.outcomes), 'fails': self.fails, 'samples': self.samples,
             'last_case': jsonable(self.last_case), 'excluded': dict(self.excluded),
             'states': self.states, 'transitions': self.transitions,
             'counters': dict(self.counters), 'notes': self.notes, 'maxdev': self.maxdev,
             'shard': self.shard,
         }
+
+
+def _pack(hashes):
+    """set of 64-bit hashes -> compact uint64 array (python's own hash() values are folded)"""
+    import numpy as np
+    return np.fromiter((h & 0xFFFFFFFFFFFFFFFF for h in hashes), dtype=np.uint64, count=len(hashes))
 
 
 def exc_origin(tb):
@@ -329,7 +335,7 @@ def main(argv):
 
 def finish(module, prop, args, seed, shards, results, skipped, wall):
     agg = {'evaluations': 0, 'states': 0, 'transitions': 0}
-    distinct, outcomes = set(), set()
+    distinct, outcomes = [], []
     fails, samples, excluded, counters, notes, maxdev = {}, [], Counter(), Counter(), {}, {}
     harness_errors = []
     last_case = None
@@ -341,8 +347,8 @@ def finish(module, prop, args, seed, shards, results, skipped, wall):
         agg['evaluations'] += r['evaluations']
         agg['states'] += r['states']
         agg['transitions'] += r['transitions']
-        distinct |= r['distinct']
-        outcomes |= r['outcomes']
+        distinct.append(r['distinct'])
+        outcomes.append(r['outcomes'])
         for sig, f in r['fails'].items():
             if sig not in fails:
                 fails[sig] = dict(f)
@@ -361,6 +367,9 @@ def finish(module, prop, args, seed, shards, results, skipped, wall):
             maxdev[k] = max(maxdev.get(k, 0.0), v)
     if last_case is not None:
         samples.append(last_case)
+    import numpy as np
+    distinct = np.unique(np.concatenate(distinct)) if distinct else np.zeros(0, dtype=np.uint64)
+    outcomes = np.unique(np.concatenate(outcomes)) if outcomes else np.zeros(0, dtype=np.uint64)
 
     if hasattr(module, 'finalize'):
         # cross-shard oracles (e.g. exact uniformity by counting over a complete enumeration)
@@ -375,7 +384,9 @@ def finish(module, prop, args, seed, shards, results, skipped, wall):
             known_seen.append(sig)
         else:
             new.append(sig)
-    rdir = os.path.join(VERIF, 'replays', prop)
+    # runs against a scratch copy / probe runs must not overwrite the replay files of the real tree
+    scratch_run = args.no_evidence or os.path.abspath(REPO) != '/repo'
+    rdir = os.path.join(VERIF, 'replays', '_scratch' if scratch_run else '', prop)
     out_lines = []
     for sig in known_seen:
         out_lines.append('KNOWN-FINDING: property=%s sig=%s :: %s (seen %d times)' % (
